@@ -217,16 +217,18 @@ fn process_swaps_for_single_pool<C: ContentAddrStore>(
 
         if swap.outputs[0].denom == pool.left() {
             swap.outputs[0].denom = pool.right();
-            swap.outputs[0].value = CoinValue(multiply_frac(
+            swap.outputs[0].value = CoinValue(pro_rata(
                 right_withdrawn,
-                Ratio::new(swap.outputs[0].value.0, total_lefts),
+                swap.outputs[0].value.0,
+                total_lefts,
             ))
             .min(MAX_COINVAL);
         } else {
             swap.outputs[0].denom = pool.left();
-            swap.outputs[0].value = CoinValue(multiply_frac(
+            swap.outputs[0].value = CoinValue(pro_rata(
                 left_withdrawn,
-                Ratio::new(swap.outputs[0].value.0, total_rights),
+                swap.outputs[0].value.0,
+                total_rights,
             ))
             .min(MAX_COINVAL);
         }
@@ -332,8 +334,7 @@ fn process_deposits_for_single_pool<C: ContentAddrStore>(
             .sqrt()
             .saturating_mul(deposit.outputs[1].value.0.sqrt());
         deposit.outputs[0].denom = pool.liq_token_denom();
-        deposit.outputs[0].value =
-            multiply_frac(total_liqs, Ratio::new(my_mtsqrt, total_mtsqrt)).into();
+        deposit.outputs[0].value = pro_rata(total_liqs, my_mtsqrt, total_mtsqrt).into();
         log::debug!(
             "added {} total liquidity out of {}!",
             deposit.outputs[0].value,
@@ -416,11 +417,10 @@ fn process_withdrawals_for_single_pool<C: ContentAddrStore>(
 
         let my_liqs = deposit.outputs[0].value.0;
         deposit.outputs[0].denom = pool.left();
-        deposit.outputs[0].value =
-            multiply_frac(total_left, Ratio::new(my_liqs, total_liqs)).into();
+        deposit.outputs[0].value = pro_rata(total_left, my_liqs, total_liqs).into();
         let synth = CoinData {
             denom: pool.right(),
-            value: multiply_frac(total_write, Ratio::new(my_liqs, total_liqs)).into(),
+            value: pro_rata(total_write, my_liqs, total_liqs).into(),
             covhash: deposit.outputs[0].covhash,
             additional_data: deposit.outputs[0].additional_data.clone(),
         };
@@ -543,6 +543,16 @@ fn process_pegging<C: ContentAddrStore>(mut state: UnsealedState<C>) -> Unsealed
     // return the state now
     assert!(state.pools.val_iter().count() >= 2);
     state
+}
+
+/// `total * mine / all` rounded down; nothing when `all` is zero (every request of a side may be
+/// zero-valued, and a ratio with a zero denominator cannot be built).
+fn pro_rata(total: u128, mine: u128, all: u128) -> u128 {
+    if all == 0 {
+        0
+    } else {
+        multiply_frac(total, Ratio::new(mine, all))
+    }
 }
 
 fn multiply_frac(x: u128, frac: Ratio<u128>) -> u128 {
